@@ -705,6 +705,13 @@ const std::vector<std::string>& mate_fens()
         "1k6/8/1K6/8/8/8/8/7R w - - 0 1",
         "r5rk/5p1p/5R2/4B3/8/8/7P/7K w - - 0 1",
         "5rk1/5ppp/8/8/8/8/1Q6/K6R w - - 0 1",
+        // the mating move is a promotion
+        "7k/P7/6K1/8/8/8/8/8 w - - 0 1",
+        "k7/7p/1K6/8/8/8/8/8 b - - 0 1",
+        "6k1/2P3pp/8/8/8/8/8/6K1 w - - 0 1",
+        "5k2/4P1pp/5K2/8/8/8/8/8 w - - 0 1",
+        "8/8/8/8/8/5k2/4p1PP/6K1 b - - 0 1",
+        "3r2k1/1P3ppp/8/8/8/8/8/6K1 w - - 0 1",
     });
     return v;
 }
